@@ -23,6 +23,7 @@ ASSUMPTIONS = ["ties within 1e-9 at a beam cut or at the pre-selection threshold
                "scores are compared with tolerance 1e-9*(1+|x|)"]
 
 LETTERS = ["a", "b", "c", "d", "e", "f", "g"]
+_LONG_LIVED = {}
 
 
 def letters_for(C):
@@ -53,6 +54,17 @@ def run_case(ctx, fam, M, k, sel, dtype, tag="rand"):
     with np.errstate(all="ignore"):
         boh = ctx.must("decoder_raises", dec, logits.copy())
     hyps = [(h.transcript, float(h.vis_sc)) for h in boh]
+    # the same input through a long-lived decoder of this worker (decoders are reused across lines, e.g. by decode_page):
+    # the result must not depend on what that decoder has decoded before
+    key = (C, k, sel)
+    if key not in _LONG_LIVED:
+        _LONG_LIVED[key] = CTCPrefixLogRawNumpyDecoder(letters_for(C), k,
+                                                        relevant_logits_selector=select_all if sel == "all" else select_relevant_logits)
+    with np.errstate(all="ignore"):
+        boh2 = ctx.must("decoder_raises", _LONG_LIVED[key], logits.copy())
+    hyps2 = [(h.transcript, float(h.vis_sc)) for h in boh2]
+    ctx.check(sorted(hyps2) == sorted(hyps), "result_depends_on_decoder_history",
+              lambda: "fresh decoder %r, decoder used for earlier inputs %r; " % (sorted(hyps), sorted(hyps2)) + desc())
     ctx.event("family:" + fam)
     ctx.event("selector:" + sel)
     ctx.event("k:%d" % k)
